@@ -14,11 +14,12 @@ FLOWS = ["fa", "fb", "fc", "fd"]
 class Gen:
     def __init__(self, seed, max_flows=3, max_stmts=5, depth=2, features=None):
         self.r = random.Random(seed)
+        self.r2 = random.Random(seed * 7919 + 13)      # a separate stream for later additions: the older programs stay what they were
         self.max_flows = max_flows
         self.max_stmts = max_stmts
         self.depth = depth
         self.features = features or {"when", "if", "while", "groups", "actions", "activate", "return", "abort",
-                                     "priority", "loop", "vars", "refs", "start", "actionmembers", "params", "endflow", "globals"}
+                                     "priority", "loop", "vars", "refs", "start", "actionmembers", "params", "endflow", "globals", "label"}
         self.nvar = 0
         self.flow_params = {}
         self.names = FLOWS[:1]
@@ -192,6 +193,14 @@ class Gen:
                     body.append("  send Out2(v=$q)")
                 if self.has("return") and self.r.random() < 0.4:
                     body.append("  return $p")
+            if self.has("label") and self.r2.random() < 0.12 and body:
+                # the restart label between two top-level statements (after the first wait: the documented use)
+                spots = [j for j in range(len(body) + 1)
+                         if (j == len(body) or (body[j].startswith("  ") and not body[j].startswith("   ")
+                                                and not body[j].lstrip().startswith(("or when", "else", "global"))))
+                         and not (j > 0 and body[j - 1].lstrip().startswith("global"))]
+                if spots:
+                    body.insert(self.r2.choice(spots), "  start_new_flow_instance:")
             text.append("%sflow %s%s\n%s\n%s\n" % (deco, f, params, first, "\n".join(body)))
         main_body = []
         for f in names[: self.r.randint(1, len(names))]:
